@@ -90,6 +90,53 @@ Section UpdateClauses.
   Qed.
 End UpdateClauses.
 
+(* ---------------------------------------------------------------------------------------- *)
+(* The accepted domain of UpdateSkinPartitions in closed form, on the state the caller has:
+   triangles present, no corner 65535, partitions + triangles < 2^31, the dismember list (if any)
+   aligned, and EITHER triParts current with every entry below the partition count (negative =
+   unassigned) OR triParts stale/empty and at least one partition, none of them with strips left. *)
+Definition ks_update_domain (sh : ks_shape) (k : ks_skin) : bool :=
+  let s := kk_sp k in
+  (kh_hastris sh
+   && forallb ks_tri_small (kh_tris sh)
+   && (vlen (kp_parts s) + vlen (kh_tris sh) <? 2147483648)
+   && (match kk_dis k with Some d => vlen d =? vlen (kp_parts s) | None => true end)
+   && (if vlen (kh_tris sh) =? vlen (kp_tp s)
+       then forallb (fun pj => (pj <? Z.of_N (vlen (kp_parts s)))%Z) (kp_tp s)
+       else negb (ks_isnil (kp_parts s))
+            && forallb (fun p => (kb_ns p =? 0) && (vlen (kb_tris p) <? 2147483648)) (kp_parts s)))%bool.
+
+Theorem ks_update_domain_ok (sh : ks_shape) (k : ks_skin) :
+  ks_update_domain sh k = true ->
+  exists s0, ks_sp_prepare_triparts (map ks_rot (kh_tris sh)) (kk_sp k) = Ok s0 /\
+             ks_update_accepts sh s0 (kk_dis k) = true.
+Proof.
+  unfold ks_update_domain. intros H.
+  repeat (apply andb_true_iff in H; destruct H as [H ?]).
+  rename H into Hhas, H0 into Hcase, H1 into Hdis, H2 into Hsize, H3 into Hsmall.
+  destruct (N.eqb_spec (vlen (kh_tris sh)) (vlen (kp_tp (kk_sp k)))) as [Heq|Hne].
+  - exists (kk_sp k). split.
+    + apply ks_prepare_triparts_current. rewrite ks_map_rot_vlen. exact Heq.
+    + unfold ks_update_accepts. rewrite Hhas, Hcase, Hdis, Hsmall, Hsize. rewrite Heq, N.eqb_refl. reflexivity.
+  - apply andb_true_iff in Hcase. destruct Hcase as [Hnn Hsf].
+    destruct (ks_prepare_triparts_regen (map ks_rot (kh_tris sh)) (kk_sp k)) as (s0 & E & Lp & Lm & Lt & Rg).
+    + rewrite ks_map_rot_vlen. exact Hne.
+    + destruct (kp_parts (kk_sp k)); [discriminate|discriminate].
+    + apply Forall_forall. intros p Hp. rewrite forallb_forall in Hsf. specialize (Hsf p Hp).
+      apply andb_true_iff in Hsf. destruct Hsf as [H1 H2]. apply N.eqb_eq in H1. apply N.ltb_lt in H2.
+      split; [exact H1|]. change (2 ^ 31) with 2147483648. exact H2.
+    + exists s0. split; [exact E|]. unfold ks_update_accepts.
+      assert (Hvl : vlen (kp_parts s0) = vlen (kp_parts (kk_sp k))) by (apply ks_vlen_length; exact Lp).
+      rewrite Hhas, Hsmall, Hvl, Hsize, Hdis.
+      assert (Ht : vlen (kh_tris sh) =? vlen (kp_tp s0) = true).
+      { apply N.eqb_eq. unfold vlen. rewrite Lt, map_length. reflexivity. }
+      rewrite Ht. cbn [andb].
+      assert (Hr : forallb (fun pj => (pj <? Z.of_N (vlen (kp_parts (kk_sp k))))%Z) (kp_tp s0) = true).
+      { apply forallb_forall. intros pj Hpj. rewrite Forall_forall in Rg. specialize (Rg pj Hpj).
+        apply Z.ltb_lt. unfold vlen. rewrite <- Lp. lia. }
+      rewrite Hr. reflexivity.
+Qed.
+
 (* the limit of the target game is never exceeded, whatever the weights: three vertices with at
    most four weights each need at most twelve bones *)
 Lemma ks_bone_limit_games v : ks_max_bones v = 18 \/ ks_max_bones v = 80 \/ ks_max_bones v = 65535.
@@ -211,3 +258,8 @@ Qed.
 
 Lemma ks_set_accepts_example : ks_set_accepts [(1, 32); (1, 38)] [0; -1; 5; 1]%Z = true.
 Proof. reflexivity. Qed.
+
+Lemma ks_update_domain_example :
+  ks_update_domain (fst ks_wit_short) ks_wit_short_aligned = true /\
+  ks_update_domain (fst ks_wit_wide) (snd ks_wit_wide) = true.
+Proof. split; vm_compute; reflexivity. Qed.
